@@ -118,7 +118,7 @@ PROPS.update({
     "C09": dict(adp_prop(["EyeballVerif.Props.C09", "EyeballVerif.Props.StageSound", "EyeballVerif.Props.PipeSoundD"],
         "head_handle_diff / tail_handle_diff / skip_handle_diff: for every diff valid on the buffered vector, every limit/count and every vector, the emitted diffs replayed strictly on the old view "
         "(take L / lastN L / drop c) give the new view; head_update_limit / skip_update_count for every (old,new,vector); Tail::update_limit: full statement refuted by a kernel-checked witness "
-        "(known finding D2) and proved outside the D2 signature (tail_update_limit_partial); *_initial: the constructors hand out the spec view"),
+        "(known finding D2) and proved outside the D2 signature (tail_update_limit_partial); *_initial: the constructors hand out the spec view", engines=[{"name": "adp"}, {"name": "vconc"}]),
         claim=("Lean 4 theorems, one per adapter and quantified over every diff valid on the source, every limit/count and every vector: the diffs emitted by handle_diff (all eleven arms), replayed strictly on "
                "the old view, yield exactly take L / last L / drop c of the new source (head_handle_diff, tail_handle_diff, skip_handle_diff) — which also shows each emitted diff is applicable; the same for every "
                "limit/count change (head_update_limit, skip_update_count); for Tail::update_limit the full statement is refuted in the kernel (known finding D2) and the strongest partial theorem is proved. "
@@ -168,7 +168,7 @@ PROPS.update({
         design_ref="DESIGN.md §6 C12"),
     "C13": dict(adp_prop(["EyeballVerif.Props.C13", "EyeballVerif.Props.C13Flat", "EyeballVerif.Props.PipeSoundU", "EyeballVerif.Lemmas.PipeBasics"],
         "c13_no_empty_batch: for chains of any length, any fuel and world, polling never yields an empty batch given the vector never publishes an empty message (pollStages_item principle, induction over "
-        "the poll loop); c13_mapDiffs_append / c13_mapDiffs_acc: the Vec container's flat_map over a batch = handling its diffs one after the other"),
+        "the poll loop); c13_mapDiffs_append / c13_mapDiffs_acc: the Vec container's flat_map over a batch = handling its diffs one after the other", engines=[{"name": "adp"}, {"name": "vconc"}]),
         claim=("Lean 4 theorems: no stage, alone or in a chain of any length, ever emits an empty batch (c13_no_empty_batch, by induction over the poll loop of the generic stage skeleton, using that commits "
                "never publish empty messages); handling a batch in one go produces exactly the concatenation, in order, of handling its diffs one at a time, with the same buffered state "
                "(c13_mapDiffs_append, c13_mapDiffs_acc) — the algebraic core of 'batched = unbatched, concatenated'. Tied to the code by running every exhaustive case in both flavours and comparing the "
@@ -311,8 +311,8 @@ ENGINES = [
      "kind_free_text": "differential correspondence (real VectorDiff vs Lean model) + implementation-side oracle"},
     {"name": "vec", "path": "harness/src/eng_vec.rs", "serves_properties": ["C05", "C06", "C07", "C08", "C17"],
      "kind_free_text": "differential correspondence (real ObservableVector/subscriber streams vs Lean model OV) + implementation-side oracles (strict replica, plain-vector reference, pending-message ledger, wake flags)"},
-    {"name": "vconc", "path": "harness/src/eng_vconc.rs", "serves_properties": ["C05", "C06", "C08"],
-     "kind_free_text": "writer on its own thread against plain and batched subscriber streams polled on two other threads (a poll is no longer atomic w.r.t. updates: the Lagged arms inside the drain loops); implementation-side oracles only (strict applicability, replica = final contents, End iff dropped) — the interleaving is not recorded, so there is no model trace"},
+    {"name": "vconc", "path": "harness/src/eng_vconc.rs", "serves_properties": ["C05", "C06", "C08", "C09", "C13"],
+     "kind_free_text": "writer on its own thread against plain and batched subscriber streams and a batched skip(1) adapter polled on three other threads (a poll is no longer atomic w.r.t. updates: the Lagged arms inside the drain loops); implementation-side oracles only (strict applicability, replica = final contents, End iff dropped) — the interleaving is not recorded, so there is no model trace"},
     {"name": "adp", "path": "harness/src/eng_adp.rs", "serves_properties": ["C09", "C10", "C11", "C12", "C13", "C14", "C15"],
      "kind_free_text": "differential correspondence (real adapter pipelines vs Lean model Pipe) + implementation-side oracles on transparent taps between the stages"},
     {"name": "obs", "path": "harness/src/eng_obs.rs", "serves_properties": ["C01", "C02", "C03", "C19"],
